@@ -508,6 +508,11 @@ func clauseMentions(con *Contract, id string) bool {
 			return true
 		}
 	}
+	for _, c := range con.Sites {
+		if hasProp(c.Props, id) {
+			return true
+		}
+	}
 	for _, l := range con.Loops {
 		for _, c := range l.Invariants {
 			if hasProp(c.Props, id) {
